@@ -330,8 +330,8 @@ def fsDump (w : Model.World) : String :=
   String.intercalate ";" (w.dirs.map fun (p, es) =>
     Driver.hex p ++ "=" ++ String.intercalate "," ((es.mergeSort (fun a b => decide (a.1 ≤ b.1))).map fun (n, fid) =>
       match w.file fid with
-      | some f => Driver.hex n ++ ":" ++ Driver.hex f.data ++ ":" ++ Driver.hex f.durable
-      | none => Driver.hex n ++ ":?:?"))
+      | some f => Driver.hex n ++ ":" ++ Driver.hex f.data ++ ":" ++ Driver.hex f.durable ++ ":" ++ toString (w.mtime fid)
+      | none => Driver.hex n ++ ":?:?:0"))
 
 /-- conform <env> <blocks> <files> <devs> <stdin> <trace>  (each argument a hex blob of text) -/
 def worldBindings (w : Model.World) : List Bytes :=
@@ -389,6 +389,13 @@ def handleConform (args : List Bytes) : String :=
         let files : Option Model.Files := (Driver.lines filesB).mapM fun l =>
           match Driver.words l with
           | [d, n, c] => do let d ← Driver.unhex d; let n ← Driver.unhex n; let c ← Driver.unhex c; pure (d, n, c)
+          | [d, n, c, _] => do let d ← Driver.unhex d; let n ← Driver.unhex n; let c ← Driver.unhex c; pure (d, n, c)
+          | _ => none
+        -- optional 4th field: modification time in ns
+        let mtimes : List Nat := (Driver.lines filesB).filterMap fun l =>
+          match Driver.words l with
+          | [_, n, _] => if n == "-" then none else some 0
+          | [_, n, _, t] => if n == "-" then none else some ((t.toNat?).getD 0)
           | _ => none
         let devs : List (Bytes × Nat) := (Driver.lines devsB).filterMap fun l =>
           match Driver.words l with
@@ -402,7 +409,8 @@ def handleConform (args : List Bytes) : String :=
           let indexed := files.zipIdx
           let w0 : Model.World := {
             dirs := dirNames.map fun d => (d, (indexed.filter fun e => e.1.1 == d).map fun e => (e.1.2.1, e.2)),
-            files := indexed.map fun e => (e.2, { data := e.1.2.2, durable := e.1.2.2, mtime := 0 }),
+            files := indexed.map fun e => (e.2, { data := e.1.2.2, durable := e.1.2.2 }),
+            mtimes := indexed.map fun e => (e.2, mtimes.getD e.2 0),
             nextFid := files.length, handles := [.other, .other, .other], devs := devs, trace := [] }
           let orc : Model.EvalOracles := { rx := rxFFI, strptime := strptimeEnv, zoneName := zoneEnv env.now }
           let prog := Model.mainP env orc (confok == "1") blocks files input
